@@ -224,7 +224,7 @@ func normTree(v any) any {
 
 func checkC19(c *Ctx) {
 	c.Rule = "the cdi and validate binaries built from the working tree run on seeded Spec-directory populations (with and without files in error, missing directories) passed as --spec-dirs a,b / repeated -d; subcommands devices [-v -o json|yaml], vendors, classes, specs [vendor] [-v], dirs, validate, inject <file|-> <patterns> [-o json|yaml]; validate binary on C17-style documents with --schema builtin|none|<file>, file argument and stdin; reference = in-process cache with the same options and the same validator; output compared after parsing; distinct_nontrivial = distinct (subcommand+flags, population has errors, flag form)"
-	c.Assume("with cache errors present the tool reports them and exits non-zero without listing (its design); listings are compared only for error-free populations", "inject: the reference injects the matched devices in sorted order, as the tool documents by sorting its matches", "monitor (never terminates) and resolve (own default-directory cache) are not checked")
+	c.Assume("with cache errors present the tool reports them and exits non-zero without listing (its design); listings are compared only for error-free populations", "inject: the reference injects the matched devices in sorted order, as the tool documents by sorting its matches", "monitor: the listings it prints are compared, a change it never reports is judged against a control change it does report (60 s patience each); resolve (own default-directory cache) is not checked")
 	cdiBin := filepath.Join(c.Build, "cdi")
 	valBin := filepath.Join(c.Build, "validate")
 	for _, b := range []string{cdiBin, valBin} {
@@ -660,6 +660,10 @@ func checkC19(c *Ctx) {
 		}
 		c.Sample(3, map[string]any{"configured_dirs": p.Conf, "library_error_keys": errKeys, "devices": ref.ListDevices()})
 	})
+	// the monitor subcommand
+	if c.replayCase == "" || strings.HasPrefix(c.replayCase, "monitor") {
+		c19Monitor(c, cdiBin)
+	}
 	// the validate tool
 	ss, err := loadSchemaSet(filepath.Join(c.Repo, "schema"))
 	if err != nil {
